@@ -53,8 +53,12 @@ def run_hist_job(items):
             if sample is None:
                 sample = {"program": spec["id"], "store": store_kind, "history": [list(s) for s in h],
                           "observed": [[o["real"][0], str(o["real"][1])[:80], o["log"]] for o in obs]}
-            for prop, key, what in p:
-                probs.append((prop, key, what, {"spec": spec, "hist": [list(s) for s in h], "store": store_kind, "oracles": sorted(oracles)}))
+            for pr in p:
+                prop, key, what = pr[:3]
+                case = {"spec": spec, "hist": [list(s) for s in h], "store": store_kind, "oracles": sorted(oracles)}
+                if len(pr) > 3:
+                    case.update(pr[3])
+                probs.append((prop, key, what, case))
         out.append(dict(id=spec["id"], store=store_kind, histories=nh, evals=nev, states=len(sigtab), outcomes=len(outcomes),
                         problems=probs, sample=sample,
                         sigtab={f"{k[1]}|{k[2]}": v[0] for k, v in sigtab.items()}))
@@ -65,5 +69,8 @@ def replay_hist(case, prop):
     w = world()
     spec = case["spec"]
     h = tuple(tuple(s) for s in case["hist"])
-    p, n, obs = X.run_history(w, spec, h, case["store"], set(case["oracles"]), {})
-    return [(pp, k, what) for pp, k, what in p if pp == prop]
+    sigtab = {}
+    if case.get("prev_hist"):
+        X.run_history(w, spec, tuple(tuple(s) for s in case["prev_hist"]), case["prev_store"], set(case["oracles"]), sigtab)
+    p, n, obs = X.run_history(w, spec, h, case["store"], set(case["oracles"]), sigtab)
+    return [(pr[0], pr[1], pr[2]) for pr in p if pr[0] == prop]
